@@ -154,7 +154,8 @@ pub fn encode(st: &State, enc: Enc, layout_seed: u64) -> Vec<u8> {
                 fe: (st.ram_seed >> 24) as u8 & 0x1F,
                 ay: st.ay.map(|(cur, regs)| szx::AyChunk { flags: 2, current: cur, regs }),
                 kempston_joystick: None,
-                mouse: st.mouse.map(|m| if m { 2 } else { 0 }),
+                // no Kempston mouse: "none" (0) or an AMX mouse (1), which this machine does not have either
+                mouse: st.mouse.map(|m| if m { 2 } else if st.ram_seed & 0x100 != 0 { 1 } else { 0 }),
             };
             let mut layout = szx::Layout::default();
             match enc {
@@ -173,7 +174,9 @@ pub fn encode(st: &State, enc: Enc, layout_seed: u64) -> Vec<u8> {
                         layout.order.swap(i, j);
                     }
                     layout.compress_pages = (0..8).map(|_| rnd() & 1 == 0).collect();
-                    layout.unknown_after = vec![((rnd() % 6) as u8, (rnd() % 300) as u16), ((rnd() % 12) as u8, 0)];
+                    // (now and then an unknown chunk bigger than a RAM page: an embedded tape or disk image)
+                    let big = if rnd() % 4 == 0 { 65_540 + (rnd() % 5_000) as u32 } else { (rnd() % 300) as u32 };
+                    layout.unknown_after = vec![((rnd() % 6) as u8, big), ((rnd() % 12) as u8, 0)];
                     layout.lowercase_ids = rnd() & 1 == 0;
                     layout.ramp_page_order_reversed = rnd() & 1 == 0;
                 }
@@ -185,7 +188,13 @@ pub fn encode(st: &State, enc: Enc, layout_seed: u64) -> Vec<u8> {
 }
 
 pub fn prepare_receiver(machine: Machine, receiver: Receiver, sound: bool) -> Result<Emu, String> {
+    prepare_receiver_with(machine, receiver, sound, false)
+}
+
+/// `mouse`: the receiving machine has a Kempston mouse plugged in (host setting)
+pub fn prepare_receiver_with(machine: Machine, receiver: Receiver, sound: bool, mouse: bool) -> Result<Emu, String> {
     let mut o = EmuOpts::new(machine);
+    o.mouse = mouse;
     if sound {
         o.sound = true;
         o.ay = true;
@@ -444,7 +453,12 @@ pub fn check_devices(c: &DevCase, rec: &mut Rec) -> Result<(), String> {
         f_state.edits.retain(|(b, o, _)| !(*b % machine.ram_banks() == pb && (*o & 0x3FFF) >= off && (*o & 0x3FFF) < off + 24));
         encode_with_idle(&f_state, c.enc)
     };
-    let mut e = prepare_receiver(machine, c.receiver, true)?;
+    // half of the receivers have a Kempston mouse of their own: the file decides what is there afterwards
+    let receiver_has_mouse = c.tone_period % 2 == 0;
+    let mut e = prepare_receiver_with(machine, c.receiver, true, receiver_has_mouse)?;
+    if receiver_has_mouse {
+        rec.class("receiver-with-a-mouse-of-its-own");
+    }
     let ay_off = if machine == Machine::K48 { c.ay_off % 3 } else { 0 };
     match ay_off {
         1 => e.set_ay_enabled(false),
@@ -670,7 +684,7 @@ fn encode_with_idle_flags(st: &State, enc: Enc, ay_flags: u8) -> Vec<u8> {
         fe: (s.ram_seed >> 24) as u8 & 0x1F,
         ay: s.ay.map(|(cur, regs)| szx::AyChunk { flags: ay_flags, current: cur, regs }),
         kempston_joystick: None,
-        mouse: s.mouse.map(|m| if m { 2 } else { 0 }),
+        mouse: s.mouse.map(|m| if m { 2 } else if s.ram_seed & 0x100 != 0 { 1 } else { 0 }),
     };
     let mut layout = szx::Layout::default();
     if enc == Enc::SzxZlib {
